@@ -103,7 +103,29 @@ static inline rc::Gen<Bytes> gbytes(size_t n) {
         return b;
     });
     auto highbits = rc::gen::map(rc::gen::container<Bytes>(n, rc::gen::arbitrary<uint8_t>()), [](Bytes b) { for (auto &v : b) v |= 0x80; return b; });
-    return rc::gen::weightedOneOf<Bytes>({{5, uniform}, {2, seeded}, {1, sparse}, {1, constant}, {1, counting}, {1, highbits}});
+    // word-structured values: every aligned 2-, 4- or 8-byte word is all-zero, all-one, a repeat of the previous word or random
+    // ("skip when the word is zero", "equal halves", "nothing to do" shortcuts trigger on these, never on uniform bytes)
+    auto wordy = rc::gen::exec([n]() {
+        Bytes b(n, 0);
+        size_t w = (size_t)*rc::gen::element(2, 4, 4, 8, 8);
+        for (size_t i = 0; i < n; i += w) {
+            int c = *irange(0, 9);
+            for (size_t k = i; k < std::min(n, i + w); ++k) {
+                if (c < 3) b[k] = 0;
+                else if (c < 5) b[k] = 0xff;
+                else if (c < 7 && i >= w) b[k] = b[k - w];
+                else b[k] = *rc::gen::arbitrary<uint8_t>();
+            }
+        }
+        return b;
+    });
+    // extreme constants with at most one byte disturbed: 00..00, ff..ff, 00..01, 80..00, ff..fe, ...
+    auto extreme = rc::gen::exec([n]() {
+        Bytes b(n, (uint8_t)(*chance(50) ? 0xff : 0x00));
+        if (*chance(60)) { size_t pos = *rc::gen::element<size_t>(0, n - 1, (size_t)*irange(0, (int)n - 1)); b[pos] = *rc::gen::element<uint8_t>(0x00, 0x01, 0x7f, 0x80, 0xfe, 0xff); }
+        return b;
+    });
+    return rc::gen::weightedOneOf<Bytes>({{5, uniform}, {2, seeded}, {1, sparse}, {1, constant}, {1, counting}, {1, highbits}, {2, wordy}, {1, extreme}});
 }
 
 // bulk data: cheap, from a shrinkable seed (keeps big inputs from dominating shrink time)
@@ -116,6 +138,42 @@ static inline rc::Gen<Bytes> gdata(size_t n) {
         for (size_t i = 0; i < n; ++i) { x ^= x << 13; x ^= x >> 7; x ^= x << 17; b[i] = (uint8_t)(x >> 24); }
         return b;
     });
+}
+
+// arrays of blocks (parallel-ECB data, Mantis per-block tweak arrays) the way callers build them: unrelated blocks, the
+// same block throughout, a big-endian ramp (counter mode on top of ECB, sector numbers), one base block with a few
+// entries replaced, two values in runs (region tags A A A B B A A).  A batch kernel that derives a whole batch from
+// some of its lanes (first == last, so all equal) is right on unrelated blocks and on constant arrays, wrong on these.
+static inline rc::Gen<Bytes> gblocks(size_t n, size_t bs) {
+    if (n < 2 * bs || n % bs) return gdata(n);
+    auto structured = rc::gen::exec([n, bs]() {
+        size_t nb = n / bs;
+        Bytes base = *gbytes(bs), other = *gbytes(bs);
+        Bytes b(n);
+        int shape = *irange(0, 3);
+        for (size_t i = 0; i < nb; ++i) {
+            Bytes blk = base;
+            if (shape == 1) {            // ramp: base + i, big-endian; sometimes in a middle byte only
+                size_t k = bs; unsigned long long add = i;
+                while (k-- > 0 && add) { add += blk[k]; blk[k] = (uint8_t)add; add >>= 8; }
+            }
+            memcpy(&b[i * bs], blk.data(), bs);
+        }
+        if (shape == 2) {                // a few entries replaced
+            int r = *irange(1, 3);
+            for (int j = 0; j < r; ++j) {
+                size_t i = (size_t)*irange(0, (int)nb - 1);
+                Bytes blk = *chance(50) ? other : base;
+                if (blk == base) { size_t pos = (size_t)*irange(0, (int)bs - 1); blk[pos] ^= (uint8_t)(1u << *irange(0, 7)); }
+                memcpy(&b[i * bs], blk.data(), bs);
+            }
+        } else if (shape == 3) {         // two values in runs
+            bool cur = false;
+            for (size_t i = 0; i < nb; ++i) { if (*chance(30)) cur = !cur; memcpy(&b[i * bs], (cur ? other : base).data(), bs); }
+        }
+        return b;
+    });
+    return rc::gen::weightedOneOf<Bytes>({{5, gdata(n)}, {4, structured}});
 }
 
 // counters: uniform, ff-suffixes (carry chains), all-ff (wrap), ff..ff - k
@@ -235,6 +293,14 @@ static inline int skv_main(int argc, char **argv, Harness &h) {
     auto gen = h.gen();
     bool ok = rc::check([&]() {
         Program p = *gen;
+        // where the caller's objects sit: the public types need 8-byte alignment and nothing more, and a stand-alone
+        // local happens to get 16; a member after a pointer, or a packed record, does not
+        for (Op &op : p)
+            if (op.name.rfind("new.", 0) == 0 && !op.has("ao"))
+                op.set("ao", *rc::gen::weightedOneOf<int>({{5, rc::gen::just(0)}, {3, rc::gen::element(8, 24, 40, 56)}, {2, rc::gen::element(16, 32, 48)}}));
+        // ... and 12 % of the objects that the API also takes as pointer-to-const live in pages that are read-only during those calls
+        for (Op &op : p)
+            if (op.name.rfind("new.", 0) == 0 && !op.has("ro") && op.name.find(".c") == std::string::npos && *chance(12)) op.set("ro", 1);
         g_current_case = ser(p);
         crash_note_case();
         if (!corpus_dir.empty() && (long)st.evaluations < corpus_n && !st.shrinking) {
